@@ -255,16 +255,21 @@ theorem emitRst (h : KInv cfg k) (l r : SockAddr) (s : Seg) : KInv cfg (k.emitRs
 
 theorem abortWith (h : KInv cfg k) (fd : Nat) (b : Bool) : KInv cfg (Kernel.abortWith cfg k fd b) := by
   unfold Kernel.abortWith
+  dsimp only
   split
   · exact h
   · split
     · exact h
-    · dsimp only
-      apply h.setSock
+    · apply h.setSock
       intro t' ht'
       simp only [Option.some.injEq] at ht'
       subst ht'
       exact Tcb.caps_abort _ _
+
+theorem abortOrReap (h : KInv cfg k) (fd : Nat) (b : Bool) : KInv cfg (Kernel.abortOrReap cfg k fd b) := by
+  unfold Kernel.abortOrReap
+  dsimp only
+  split <;> (split <;> first | exact h.remove _ | exact h.abortWith _ _)
 
 theorem acceptSyn (h : KInv cfg k) (lfd : Nat) (l r : SockAddr) (s : Seg) : KInv cfg (k.acceptSyn lfd l r s) := by
   unfold Kernel.acceptSyn
@@ -299,7 +304,7 @@ theorem handleOnConnection (h : KInv cfg k) (fd : Nat) (l r : SockAddr) (s : Seg
     KInv cfg (Kernel.handleOnConnection cfg k fd l r s) := by
   unfold Kernel.handleOnConnection
   split
-  · exact h.abortWith _ _
+  · exact h.abortOrReap _ _
   · split
     · exact h
     · rename_i so hso
@@ -431,7 +436,7 @@ theorem checkRetx (h : KInv cfg k) : KInv cfg (Kernel.checkRetx cfg k) := by
     · intro b fd hb
       exact hb.emitHandshake fd
   · intro b fd hb
-    exact hb.abortWith _ _
+    exact hb.abortOrReap _ _
 
 theorem segmentOne (h : KInv cfg k) (fd : Nat) : KInv cfg (Kernel.segmentOne cfg k fd) := by
   unfold Kernel.segmentOne
